@@ -3,7 +3,8 @@ import Gmx.Model.Life
 # Gmx.Model.Life2 — deposits, withdrawals and swap orders of several users interleaved on one market
 
 Extension of `Gmx.Life` (the deposit-only machine stays untouched). Every action has a kind:
-`0` deposit, `1` withdrawal, `2` market swap long→short, `3` market swap short→long; a slot is
+`0` deposit, `1` withdrawal, `2` market swap long→short, `3` market swap short→long, `4` market-increase order
+(long position, long-token collateral: the collateral joins the pool, nothing is paid out); a slot is
 `(user, kind, index)`. The amounts only the pool maths decides (market tokens minted by a deposit, tokens paid
 out by a withdrawal or a swap) are PARAMETERS `x y` of `exec` (the harness declares the amounts observed on the
 real program and checks them); everything else — acceptance, outcome class, every balance of users, escrows,
@@ -67,7 +68,8 @@ def escrowOf (usr : User) (k a b : Nat) : Option (Nat × Nat × Nat) :=
   if k = 0 then (if (a = 0 ∧ b = 0) ∨ usr.long < a ∨ usr.short < b then none else some (a, b, 0))
   else if k = 1 then (if a = 0 ∨ usr.mt < a then none else some (0, 0, a))
   else if k = 2 then (if a = 0 ∨ usr.long < a then none else some (a, 0, 0))
-  else (if a = 0 ∨ usr.short < a then none else some (0, a, 0))
+  else if k = 3 then (if a = 0 ∨ usr.short < a then none else some (0, a, 0))
+  else (if (a = 0 ∧ b = 0) ∨ usr.long < a then none else some (a, 0, 0))   -- increase: `b` = size in USD
 
 def create (s : St) (u k i a b : Nat) (soft : Bool) (execLamports : Nat) (receiver : Nat) : Option St :=
   match s.acts u k i with
@@ -101,15 +103,19 @@ def complete (s : St) (u k i : Nat) (act : Act) (x y : Nat) : Option St :=
     some { setAct s u k i (some { act with state := 1, escLong := 0, escShort := act.escShort + x }) with
            vaultLong := s.vaultLong + act.escLong, recLong := s.recLong + act.escLong,
            vaultShort := s.vaultShort - x, recShort := s.recShort - x }
-  else
+  else if k = 3 then
     if s.recLong < x then none else
     some { setAct s u k i (some { act with state := 1, escShort := 0, escLong := act.escLong + x }) with
            vaultShort := s.vaultShort + act.escShort, recShort := s.recShort + act.escShort,
            vaultLong := s.vaultLong - x, recLong := s.recLong - x }
+  else
+    some { setAct s u k i (some { act with state := 1, escLong := 0 }) with
+           vaultLong := s.vaultLong + act.escLong, recLong := s.recLong + act.escLong }
 
 /-- `execute_deposit` / `execute_withdrawal` / `execute_increase_or_swap_order_v2`: `(state, outcome, fee)`.
 `fail` = the pool maths rejects the action (declared, like `x y`): a soft failure unless `throw`. -/
-def exec (s : St) (who : Who) (u k i fee : Nat) (throw : Bool) (fail : Bool) (x y : Nat) : Option (St × Outcome × Nat) :=
+def exec (s : St) (who : Who) (u k i fee : Nat) (throw : Bool) (fail : Bool) (x y : Nat) (hard : Bool := false) : Option (St × Outcome × Nat) :=
+  if hard then none else     -- position orders: a pool-maths rejection that aborts even without `throw` (declared)
   if who ≠ .keeper then none else
   match s.acts u k i with
   | none => none
@@ -128,13 +134,13 @@ def exec (s : St) (who : Who) (u k i fee : Nat) (throw : Bool) (fail : Bool) (x 
 withdrawal market tokens, swap input token. -/
 def inSide (k : Nat) (a : Act) : Nat × Nat × Nat :=
   if k = 0 then (a.escLong, a.escShort, 0) else if k = 1 then (0, 0, a.escMt)
-  else if k = 2 then (a.escLong, 0, 0) else (0, a.escShort, 0)
+  else if k = 3 then (0, a.escShort, 0) else (a.escLong, 0, 0)
 
 /-- the OUTPUT side (the proceeds of a successful execution): minted market tokens, withdrawn collateral,
 swap output token. -/
 def outSide (k : Nat) (a : Act) : Nat × Nat × Nat :=
   if k = 0 then (0, 0, a.escMt) else if k = 1 then (a.escLong, a.escShort, 0)
-  else if k = 2 then (0, a.escShort, 0) else (a.escLong, 0, 0)
+  else if k = 2 then (0, a.escShort, 0) else if k = 3 then (a.escLong, 0, 0) else (0, 0, 0)
 
 def credit (s : St) (v : Nat) (t : Nat × Nat × Nat) : St :=
   setUser s v ⟨(s.users v).long + t.1, (s.users v).short + t.2.1, (s.users v).mt + t.2.2⟩
@@ -154,7 +160,7 @@ inductive Op where
   | tick (dt : Nat)
   | price (age : Nat)
   | create (u k i a b : Nat) (soft : Bool) (execLamports : Nat) (receiver : Nat)
-  | exec (who : Who) (u k i fee : Nat) (throw : Bool) (fail : Bool) (x y : Nat)
+  | exec (who : Who) (u k i fee : Nat) (throw : Bool) (fail : Bool) (x y : Nat) (hard : Bool := false)
   | close (who : Who) (u k i : Nat)
 
 inductive Event where
@@ -169,7 +175,7 @@ def step (s : St) : Op → St × Event
   | .tick dt => (tick s dt, .none)
   | .price age => (price s age, .none)
   | .create u k i a b soft el rc => match create s u k i a b soft el rc with | some s' => (s', .created u k i) | none => (s, .none)
-  | .exec who u k i fee throw fail x y => match exec s who u k i fee throw fail x y with | some (s', o, _) => (s', .executed u k i o) | none => (s, .none)
+  | .exec who u k i fee throw fail x y hard => match exec s who u k i fee throw fail x y hard with | some (s', o, _) => (s', .executed u k i o) | none => (s, .none)
   | .close who u k i => match close s who u k i with | some s' => (s', .closed u k i) | none => (s, .none)
 
 def run (s : St) : List Op → St × List Event
